@@ -3,6 +3,7 @@
 (* language list: the single-language outcomes (in the order the library tries the languages), the      *)
 (* multi-language outcome with and without DEFAULT_LANGUAGES, the autodetected outcome and its re-parse. *)
 EXTENDS Pipeline, Json, IOUtils
+Ord7 == INSTANCE O_C07
 
 Tr == ndJsonDeserialize(IOEnv.TRACE_FILE)
 VARIABLE l
@@ -34,11 +35,23 @@ TriesOK(r) ==
   /\ IsSubseq(names, 1, r.order, 1)
   /\ \A i \in 1..Len(r.tries) : (r.tries[i][2] <=> (i = Len(r.tries) /\ r.multi.res # <<>>))
   /\ (r.multi.res # <<>> => Len(r.tries) > 0 /\ r.tries[Len(r.tries)][1] = r.multi.loc)
-Check(r) == LET v == Verdict(r) IN
+\* kind "conv": "selecting a region or locale applies that locale's conventions" - an ambiguous numeric date read under a
+\* regional locale (given as locales=[..] or as language + region) follows THAT locale's date order (from the shipped
+\* data), whichever locales of the same language the process loaded before
+ConvVerdict(r) ==
+  LET eff == IF r.locorder # "" THEN r.locorder ELSE "MDY" IN
+  IF ~Ord7!InDomain(eff, r.f, r.sep) THEN "skip"
+  ELSE IF r.exc # "" THEN "exception"
+  ELSE IF r.out = Ord7!Expected(eff, r.f, <<0, 0, 0>>) THEN "ok" ELSE "locale-conventions-not-applied"
+CheckConv(r) == LET v == ConvVerdict(r) IN
+                IF v \in {"ok", "skip"} THEN TRUE
+                ELSE PrintT(<<"REJECT", r.tid, "prop", v, Ord7!Expected(IF r.locorder # "" THEN r.locorder ELSE "MDY", r.f, <<0, 0, 0>>)>>)
+CheckMain(r) == LET v == Verdict(r) IN
             /\ (IF v = "ok" THEN TRUE ELSE PrintT(<<"REJECT", r.tid, "prop", v, Expected(r)>>))
             /\ (IF r.bound /\ r.exc = "" /\ ~TriesOK(r) THEN PrintT(<<"REJECT", r.tid, "abs", "locale-loop-order", r.tries>>) ELSE TRUE)
 
 TInit == l = 0
+Check(r) == IF r.kind = "conv" THEN CheckConv(r) ELSE CheckMain(r)
 TNext == l < Len(Tr) /\ l' = l + 1 /\ Check(Tr[l + 1])
 TSpec == TInit /\ [][TNext]_l
 Consumed == PrintT(<<"CONSUMED", TLCGet("stats").diameter - 1, Len(Tr)>>)
